@@ -46,7 +46,47 @@ class Result:
         r = s.check()
         self.solver_s += time.time() - t0
         self.queries += 1
+        if r == z3.unsat and getattr(self, "cross_check", False):
+            self.cvc5_check(s)
         return r, s
+
+    def cvc5_check(self, s):
+        """thorough tier: every `unsat` verdict of z3 is re-decided by cvc5 on the SMT-LIB2 dump of the same query; a `sat`
+        from cvc5 is a solver disagreement (the claim becomes inconclusive), unknown / timeout is only counted"""
+        import os
+        import subprocess
+        import tempfile
+        self.xc = getattr(self, "xc", {"agree": 0, "unknown": 0, "disagree": 0, "seconds": 0.0})
+        txt = "(set-logic ALL)\n" + s.to_smt2()
+        for op in ("bvudiv", "bvurem", "bvsdiv", "bvsrem", "bvsmod"):
+            txt = txt.replace(op + "_i", op)      # z3's internal total-division names
+        fd, path = tempfile.mkstemp(suffix=".smt2", dir=os.path.join(os.path.dirname(os.path.dirname(os.path.abspath(__file__))), ".work"))
+        try:
+            with os.fdopen(fd, "w") as f:
+                f.write(txt)
+            t0 = time.time()
+            try:
+                p = subprocess.run(["cvc5", "--lang", "smt2", "--tlimit", "20000", path], capture_output=True, text=True, timeout=40)
+                out = p.stdout.strip().split("\n")[0] if p.stdout.strip() else ""
+            except subprocess.TimeoutExpired:
+                out = "timeout"
+            self.xc["seconds"] += time.time() - t0
+            if out == "unsat":
+                self.xc["agree"] += 1
+            elif out == "sat":
+                self.xc["disagree"] += 1
+                self.error = "solver disagreement: z3 says unsat, cvc5 says sat (query kept at %s)" % path
+                path = None
+            else:
+                self.xc["unknown"] += 1
+                if "why_unknown" not in self.xc:
+                    self.xc["why_unknown"] = (out or "no output")[:160]
+        finally:
+            if path:
+                try:
+                    os.unlink(path)
+                except OSError:
+                    pass
 
     def must_be_unsat(self, constraints, what, on_model=None, timeout_ms=60000):
         """The negated property together with the path condition must be unsat."""
@@ -133,6 +173,7 @@ def run(prop, tier, seed, kf_keys, only=None):
         for cfg in c.configs:
             t0 = time.time()
             r = Result(c, cfg)
+            r.cross_check = (tier == "thorough")
             try:
                 cx = C.load(c.crate, fast_float=(cfg == "fast"))
                 c.fn(cx, r, set(kf_keys))
@@ -157,6 +198,8 @@ def summarize(r, wall):
          "solver_s": round(r.solver_s, 2), "wall_s": round(wall, 1), "functions": sorted(r.functions),
          "assumptions": r.assumptions, "vacuity_ok": vac_ok, "replays": r.replays,
          "vacuity": [l for l, ok in r.vacuity if not ok], "notes": r.notes, "known": r.known}
+    if getattr(r, "xc", None):
+        d["cvc5_cross_check"] = {k: (round(v, 1) if isinstance(v, float) else v) for k, v in r.xc.items()}
     if r.error:
         d["status"] = "inconclusive"
         d["detail"] = r.error
